@@ -52,7 +52,7 @@ type c10Action struct {
 
 type c10Case struct{ Actions []c10Action }
 
-var c10Targets = []string{"ok", "ok", "ok", "unknown", "rel-found", "noexec", "truncated", "script-missing-interp", "directory", "abs-missing", "empty-args", "empty-args-fd", "bad-rlimit"}
+var c10Targets = []string{"ok", "ok", "ok", "ok-orphan", "ok-orphan", "unknown", "rel-found", "noexec", "truncated", "script-missing-interp", "directory", "abs-missing", "empty-args", "empty-args-fd", "bad-rlimit"}
 
 func c10GenCase(rt *rapid.T) c10Case {
 	var c c10Case
@@ -485,6 +485,14 @@ func c10Run(c c10Case, rec *vh.Recorder) error {
 		case "execve":
 			code := a.Code
 			var s probe.Script
+			if a.Target == "ok-orphan" {
+				// the main process ends by itself while a descendant is still alive (and ignores signals): program-caused,
+				// the environment has to cope and serve the next call
+				s.Add("fork{")
+				s.Add("sigign")
+				s.Add("sleep:600000")
+				s.Add("}")
+			}
 			if a.Sleep > 0 {
 				s.Add(fmt.Sprintf("sleep:%d", a.Sleep))
 			}
@@ -509,7 +517,7 @@ func c10Run(c c10Case, rec *vh.Recorder) error {
 			}
 			fails, afterSync := true, false
 			switch a.Target {
-			case "ok":
+			case "ok", "ok-orphan":
 				fails = false
 			case "unknown":
 				p.ExecFile, p.Args = 0, []string{"definitely-not-a-command"}
@@ -615,7 +623,11 @@ func c10Run(c c10Case, rec *vh.Recorder) error {
 				killTagged(tag)
 				return vh.Violf("C10:call-never-answered", "%s: Execve did not return in 20s; init stat %q; container stderr %q", desc, st, contInfo())
 			}
-			killTagged(tag)
+			if a.Target == "ok-orphan" {
+				defer killTagged(tag) // what the program left behind is the environment's business until the history is over
+			} else {
+				killTagged(tag)
+			}
 			syncFails := a.Sync == "fail"
 			switch {
 			case fails || (syncFails && !(fails && !afterSync)):
@@ -716,4 +728,109 @@ func TestC10History(t *testing.T) {
 		"case = history of 4..24 operations on one fresh environment: Ping, Open/Symlink batches over a 6-name pool in /w and /tmp (existing, missing, create, excl, MkdirAll, empty batch), Delete, Reset, Execve with target in {probe exiting with a per-call code, unknown name, relative name found in PATH, not executable, truncated ELF, script with missing interpreter, directory, missing absolute path, empty Args with/without ExecFile, bad rlimit} x SyncFunc {nil, ok, failing} x SyncAfterExec x context {background, already cancelled, cancelled after 0..12 ms} x program duration x freezing the container init (SIGSTOP/SIGCONT) for 0..25 ms at the host's wait point so that the result and the kill are both pending, and cutting the transport (SIGKILL of the init); "+
 			"oracle = a model of the container file system and of each call's outcome, per-call host message sequence against the protocol of container/doc.go, container log mirrors host log at every quiescent point, final Ping + Execve(exit 7); after a transport cut every call fails within 5 s; non-trivial = an Execve failing after the sync acknowledgement, or >=2 failing actions followed by a successful Execve")
 	vh.Check(t, rec, c10GenCase, func(c c10Case) error { return c10Run(c, rec) })
+}
+
+// TestC10QueuedCalls: a second call on an environment while an Execve on it is still running for longer than any of
+// the library's own timeouts (Ping arms a 3 s deadline): the queued call must wait its turn without disturbing the call
+// in flight - the Execve's answer is its own program's exit code, the queued call gets its own answer, and the
+// environment serves the next calls.
+func TestC10QueuedCalls(t *testing.T) {
+	rec := vh.NewRecorder(t, "C10", "exploration", "queued-call part: for each of {Ping, Open, Symlink, Delete, Reset} the call is issued from another goroutine 0.3 s into an Execve that sleeps 3.6 s (longer than Ping's own 3 s deadline) on the same environment; the Execve must return its own exit code, the queued call its own answer, and a final Ping + Execve(exit 7) must work")
+	defer rec.Write()
+	type qcase struct{ Queued string }
+	run := func(c qcase) error {
+		ce := &c09Env{}
+		defer ce.close()
+		env, err := ce.get()
+		if err != nil {
+			return err
+		}
+		var s probe.Script
+		s.Add("sleep:3600")
+		s.Add("exit:41")
+		resCh := make(chan *tracedResult, 1)
+		go func() {
+			tr, _ := runContainer(sandboxOpts{Script: &s, Env: env, Timeout: 60 * time.Second})
+			resCh <- tr
+		}()
+		time.Sleep(300 * time.Millisecond)
+		qCh := make(chan error, 1)
+		go func() {
+			switch c.Queued {
+			case "ping":
+				qCh <- env.Ping()
+			case "open":
+				res, err := env.Open([]container.OpenCmd{{Path: "/w/queued", Flag: os.O_RDWR | os.O_CREATE, Perm: 0o644}})
+				if err == nil && (len(res) != 1 || res[0].Err != nil) {
+					err = fmt.Errorf("open result %+v", res)
+				}
+				closeAll(res)
+				qCh <- err
+			case "symlink":
+				res, err := env.Symlink([]container.SymbolicLink{{LinkPath: "/w/ql", Target: "t"}})
+				if err == nil && (len(res) != 1 || res[0] != nil) {
+					err = fmt.Errorf("symlink result %v", res)
+				}
+				qCh <- err
+			case "delete":
+				if err := env.Delete("/w/none"); err == nil {
+					qCh <- fmt.Errorf("Delete of a missing path succeeded")
+				} else {
+					qCh <- nil
+				}
+			default:
+				qCh <- env.Reset()
+			}
+		}()
+		tr := <-resCh
+		if tr == nil || tr.Hung || tr.Result.Status != runner.StatusNonzeroExitStatus || tr.Result.ExitStatus != 41 {
+			st := "nil"
+			if tr != nil {
+				st = fmt.Sprintf("hung=%v %v exit %d %q", tr.Hung, tr.Result.Status, tr.Result.ExitStatus, tr.Result.Error)
+			}
+			return vh.Violf("C10:inflight-call-disturbed", "an Execve that sleeps 3.6 s and exits 41 returned %s after %s was called on the same environment 0.3 s into it", st, c.Queued)
+		}
+		select {
+		case e := <-qCh:
+			if e != nil {
+				return vh.Violf("C10:queued-call-failed", "the %s queued behind the long Execve: %v", c.Queued, e)
+			}
+		case <-time.After(10 * time.Second):
+			return vh.Violf("C10:call-never-answered", "the %s queued behind the long Execve never returned", c.Queued)
+		}
+		if e := env.Ping(); e != nil {
+			return vh.Violf("C10:unusable", "Ping after the long Execve and the queued %s: %v", c.Queued, e)
+		}
+		var f probe.Script
+		f.Add("exit:7")
+		ftr, err := runContainer(sandboxOpts{Script: &f, Env: env, Timeout: 20 * time.Second})
+		if err != nil {
+			return err
+		}
+		if ftr.Hung || ftr.Result.Status != runner.StatusNonzeroExitStatus || ftr.Result.ExitStatus != 7 {
+			return vh.Violf("C10:unusable", "Execve(exit 7) after the long Execve and the queued %s: hung=%v %v exit %d %q", c.Queued, ftr.Hung, ftr.Result.Status, ftr.Result.ExitStatus, ftr.Result.Error)
+		}
+		return nil
+	}
+	if vh.ReplayIfRequested(t, rec, run) {
+		return
+	}
+	kinds := []string{"ping", "open", "symlink", "delete", "reset"}
+	errs := make([]error, len(kinds))
+	var wg sync.WaitGroup
+	for i, k := range kinds {
+		wg.Add(1)
+		go func(i int, k string) {
+			defer wg.Done()
+			errs[i] = run(qcase{k})
+		}(i, k)
+	}
+	wg.Wait()
+	for i, k := range kinds {
+		rec.Case(qcase{k}, true, "queued="+k)
+		if errs[i] != nil {
+			vh.Report(t, rec, qcase{k}, errs[i])
+		}
+	}
+	rec.Sample(qcase{"ping"})
 }
